@@ -89,6 +89,9 @@ func (r *Runner) prove(j Job) *FuncProof {
 	}
 	fc := r.eng.contracts.Funcs[j.Key]
 	opts := ProofOpts{Mode: j.Mode, QuickMs: r.quickMs, SlowMs: r.slowMs, Thorough: r.thorough, Sim: j.Sim}
+	if j.Only != "" {
+		opts.OnlyKinds = map[string]bool{j.Only: true}
+	}
 	configureDriver(r.eng, j, &opts)
 	fp := r.eng.NewFuncProof(fn, fc, opts)
 	fp.Run()
@@ -240,8 +243,11 @@ func runProperty(r *Runner, p *Property, tier string, seed int, t0 time.Time) in
 				n++
 			}
 		}
-		if n == 0 {
+		if n == 0 && rs.j.Only == "" {
 			broken = append(broken, fmt.Sprintf("%s: no obligations generated for %s", rs.j.Key, p.ID))
+		}
+		if rs.j.Only != "" {
+			continue
 		}
 		c, f := fp.Controls(tier == "thorough")
 		controls += c
@@ -293,6 +299,9 @@ func runProperty(r *Runner, p *Property, tier string, seed int, t0 time.Time) in
 			suffix = " no-failing-input-found"
 		}
 		lines = append(lines, fmt.Sprintf("VIOLATION property=%s replay=%s%s", p.ID, rp.Path, suffix))
+	}
+	if total == 0 {
+		broken = append(broken, "no obligations generated for "+p.ID)
 	}
 	for _, b := range broken {
 		lines = append(lines, "BROKEN-VERIFIER "+b)
